@@ -22,6 +22,7 @@ the group's inverters), never the name of a local.
 from __future__ import annotations
 
 import ast
+import copy
 from typing import Any
 
 from ..engine.absint import Obj
@@ -118,6 +119,7 @@ def advertised(prog: Program) -> dict[str, Any]:
 
     side = Side(groups_ok=lambda _r: True, norm=lambda e: e, leaf_bat=leaf_bat, leaf_inv=leaf_inv)
     per_return: list[dict[str, Any]] = []
+    guards: list[Any] = []
     wiring_ok = True
     for p in returns_of(node, fn.qual):
         r = p.ret
@@ -138,14 +140,27 @@ def advertised(prog: Program) -> dict[str, Any]:
         if len(slots) != 4:
             wiring_ok = False
             continue
-        per_return.append({role: agg_term(fold_loops(node, e), side) for role, e in slots.items()})
+        per_return.append({role: agg_term(fold_loops(node, e, guards), side) for role, e in slots.items()})
     if not per_return:
         wiring_ok = False
+
+    def data_guard(test: ast.AST) -> bool:
+        """`len(L) == 0`, `L`, `not L`, `len(L) > 0` … for a list L of validated component bounds"""
+        operands = [test.left] + list(test.comparators) if isinstance(test, ast.Compare) else [test]
+        lists = []
+        for x in operands:
+            inner = simple_call(x, ("len",), 1)
+            x = inner[0] if inner is not None else x
+            if not (isinstance(x, ast.Constant) and isinstance(x.value, int)):
+                lists.append(x)
+        return len(lists) == 1 and vcall(elem_of(lists[0])) is not None
+
+    guards_ok = all(data_guard(t) for t, _o in guards)
     terms = _agree(per_return) if per_return else {}
     loops = [s for s in strip_doc(node.body) if isinstance(s, ast.For)
              and find_calls(s, lambda c: _is_aggregator(prog, fn.module, c))]
     return {"fn": fn, "node": node, "loop": loops[0] if len(loops) == 1 else fn.node, "terms": terms,
-            "wiring_ok": wiring_ok, "prov": prov, "groups": side.groups, "validated": vfn}
+            "wiring_ok": wiring_ok, "guards_ok": guards_ok, "prov": prov, "groups": side.groups, "validated": vfn}
 
 
 # ------------------------------------------------------------------------------------------ enforced
@@ -336,18 +351,38 @@ def _metric_tables(prog: Program, adv: dict[str, Any]) -> tuple[Any, dict[str, b
     afn, vfn = adv["fn"], adv["validated"]
     pb_fields = record_fields(prog, RESULT_MOD, "PowerBounds")
     metric_ids = vfn.args.args[1].arg
-    pb = find_calls(vfn, lambda c: _callee(c) == "PowerBounds")
+    # lists the closure fills by `.append`: kept symbolic while its locals are substituted
+    filled = {s.targets[0].id if isinstance(s, ast.Assign) else s.target.id  # type: ignore[union-attr]
+              for s in walk_no_nested(vfn) if isinstance(s, (ast.Assign, ast.AnnAssign))
+              and isinstance(s.value, ast.List) and not s.value.elts
+              and isinstance(s.targets[0] if isinstance(s, ast.Assign) else s.target, ast.Name)}
+
+    class DropInit(ast.NodeTransformer):
+        def visit_FunctionDef(self, n: ast.FunctionDef) -> ast.AST:  # noqa: N802
+            return self.generic_visit(n) if n is vcopy else n
+
+        def drop(self, n: Any) -> Any:
+            t = n.targets[0] if isinstance(n, ast.Assign) else n.target
+            if isinstance(t, ast.Name) and t.id in filled and isinstance(n.value, ast.List) and not n.value.elts:
+                return ast.copy_location(ast.Pass(), n)
+            return n
+        visit_Assign = visit_AnnAssign = drop  # noqa: N815
+
+    vcopy = copy.deepcopy(vfn)
+    DropInit().visit(vcopy)
+    pb = [p.ret for p in returns_of(vcopy, f"{afn.qual}.{vfn.name}") if p.ret is not None and not _is_none(p.ret)]
     pos: dict[int, str] = {}
     bases: set[str] = set()
-    reader_ok = len(pb) == 1
+    reader_ok = bool(pb) and all(isinstance(r, ast.Call) and _callee(r) == "PowerBounds" for r in pb) \
+        and len({u(r) for r in pb}) == 1
     if reader_ok:
-        a = positional(pb[0], pb_fields)
+        a = positional(pb[0], pb_fields)  # type: ignore[arg-type]
         for f, v in a.items():
             if isinstance(v, ast.Subscript) and isinstance(v.value, ast.Name) and isinstance(v.slice, ast.Constant) \
                     and isinstance(v.slice.value, int):
                 pos[v.slice.value] = f
                 bases.add(v.value.id)
-        reader_ok = set(a) == set(pb_fields) and sorted(pos) == [0, 1, 2, 3] and len(bases) == 1
+        reader_ok = set(a) == set(pb_fields) and sorted(pos) == [0, 1, 2, 3] and len(bases) == 1 and bases <= filled
     if reader_ok:
         # the indexed list holds, in request order, `<data>.get(<i-th metric id>)`
         res = next(iter(bases))
@@ -425,6 +460,7 @@ def check_agg(run: Run, prog: Program) -> None:
                   node=adv["loop"], file=afn.file, instance=f"exclusion {f}: lemma {lemma} applies")
     # group minimum power <= advertised exclusion (x_i >= 0):  max(b, min_i x_i) <= max(b, Σ_i x_i)
     ar, ok = min_power_shape_ok(prog)
+    run.analysed(ar.qual)
     run.check(ok, "C17.AGG", ar.qual, "min_power_g = max(b_g, min_i x_i) <= max(b_g, Σ_i x_i) = advertised share",
               "a group's minimum power is not max(battery exclusion, smallest inverter exclusion): it may "
               "exceed the group's share of the advertised exclusion bound", node=ar.node, file=ar.file)
@@ -432,11 +468,13 @@ def check_agg(run: Run, prog: Program) -> None:
     # the shared aggregator; the enforced aggregate must be fed each battery's four bounds)
     n_bat = sum(1 for k, _i, _m in adv["prov"] if k == "bat")
     abd, ok = _aggregate_input_ok(prog)
+    run.analysed(abd.qual)
     run.check(ok and n_bat >= 1, "C17.AGG", afn.qual, "both sides aggregate a group's batteries with _aggregate_battery_power_bounds",
               "advertised and enforced bounds aggregate the batteries of a group with different functions "
               "(or the enforced aggregate is not fed every battery's own four bounds)",
               node=afn.node, file=afn.file)
     gbi, ok = _pair_data_ok(prog)
+    run.analysed(gbi.qual)
     run.check(ok, "C17.AGG", gbi.qual, "InvBatPair(AggregatedBatteryData(battery_data), inverter_data)",
               "the enforced side does not aggregate the group's batteries through AggregatedBatteryData "
               "(all batteries and all inverters it was given)", node=gbi.node, file=gbi.file)
@@ -467,10 +505,15 @@ def check_agg(run: Run, prog: Program) -> None:
               "inclusion bounds differ", node=gcd.node, file=gcd.file)
     # positional tables of the calculator
     init, tables = _metric_tables(prog, adv)
+    run.analysed(init.qual)
     for attr, ok in tables.items():
         run.check(ok, "C17.AGG", init.qual, f"{attr} order matches PowerBounds(results[0..3])",
                   f"the metric list {attr} and the positional mapping results[i] -> PowerBounds field disagree: "
                   "a bound would be read from the wrong metric", node=init.node, file=init.file)
+    run.check(adv["guards_ok"], "C17.AGG", afn.qual, "a group's bounds are added unless the group has no data",
+              "the advertised side adds a group's share under a condition other than 'bounds of the group's "
+              "batteries / inverters are available': for complete data a group can be left out of the advertised "
+              "bounds while the enforced ones count it", node=adv["loop"], file=afn.file)
     # result wiring: the roles above are *defined* by the slot each aggregate is returned in
     run.check(adv["wiring_ok"], "C17.AGG", afn.qual, "SystemBounds(inclusion=(il, iu), exclusion=(el, eu))",
               "the streamed SystemBounds does not carry the four aggregates in their places", node=afn.node, file=afn.file)
@@ -512,6 +555,7 @@ def check_acc(run: Run, prog: Program) -> None:
         return None
 
     fn, outs = explore_admission(prog, post, extra)
+    run.analysed(fn.qual)
     # the obligation lives on the paths that get as far as the bounds comparison (the id-validation
     # prefix answers Error, never OutOfBounds); anything raising or violating is kept whatever it reached
     outs = [o for o in outs if reached_bounds(o) or o.kind == "raise" or o.post is not None]
@@ -569,15 +613,18 @@ def structural_controls(prog: Program) -> list[tuple[str, str, str, str, str]]: 
         a = simple_call(c, funcs, 2)
         return a if a is not None and any(isinstance(x, ast.Attribute) and x.attr == attr for x in a) else None
 
-    def chains(cls_qual: str, wanted: set[str], strict: bool) -> list[ast.Compare]:
-        """two-operator comparison chains over `.a`/`.b` attribute operands in a class's methods"""
+    def sites(cls_qual: str, attr: str, strict: bool) -> list[tuple[ast.Compare, int, ast.Attribute]]:
+        """(comparison, operator index, operand) for every `<x>.attr` operand a strict / non-strict order
+        operator is applied to in the methods of a class"""
         out = []
         for m in prog.cls(cls_qual).methods.values():
             for c in ast.walk(m.node):
-                if isinstance(c, ast.Compare) and len(c.ops) == 2 and all(type(o) in _CMP for o in c.ops) \
-                        and all((type(o) in (ast.Lt, ast.Gt)) == strict for o in c.ops) \
-                        and {x.attr for x in [c.left] + c.comparators if isinstance(x, ast.Attribute)} == wanted:
-                    out.append(c)
+                if not isinstance(c, ast.Compare):
+                    continue
+                operands = [c.left] + list(c.comparators)
+                for k, op in enumerate(c.ops):
+                    if type(op) in _CMP and (type(op) in (ast.Lt, ast.Gt)) == strict:
+                        out += [(c, k, x) for x in operands[k:k + 2] if isinstance(x, ast.Attribute) and x.attr == attr]
         return out
 
     msrc, bsrc = prog.module(MC).source, prog.module(BMM).source
@@ -587,10 +634,9 @@ def structural_controls(prog: Program) -> list[tuple[str, str, str, str, str]]: 
     if len(mx) == 1:
         add(CONTROLS[0][0], MC, [(mx[0].func, "min")])  # type: ignore[attr-defined]
     # 2. adjustable requests: the strict zone test reaches up to the inclusion bound
-    zone = chains(f"{BMM}:BatteryManager", {"exclusion_lower", "exclusion_upper"}, strict=True)
+    zone = sites(f"{BMM}:BatteryManager", "exclusion_upper", strict=True)
     if len(zone) == 1:
-        ops = [x for x in [zone[0].left] + zone[0].comparators if isinstance(x, ast.Attribute) and x.attr == "exclusion_upper"]
-        add(CONTROLS[1][0], BMM, [(ops[0], f"{seg(bsrc, ops[0].value)}.inclusion_upper")])
+        add(CONTROLS[1][0], BMM, [(zone[0][2], f"{seg(bsrc, zone[0][2].value)}.inclusion_upper")])
     # 3. two ids of the battery metric table swapped
     init = calc.methods.get("__init__")
     if init is not None:
@@ -607,23 +653,33 @@ def structural_controls(prog: Program) -> list[tuple[str, str, str, str, str]]: 
         keep = [x for x in mn[0][1] if isinstance(x, ast.Attribute) and x.attr == "inclusion_upper"]
         add(CONTROLS[3][0], BMM, [(mn[0][0], seg(bsrc, keep[0]))])
     # 5. the advertised side iterates a list of groups (one entry per working battery)
-    sets = [n for m in calc.methods.values() for n in ast.walk(m.node) if isinstance(n, ast.SetComp)
-            and isinstance(n.elt, ast.Subscript) and u(n.elt.value).endswith("._bat_bats_map") and len(n.generators) == 1]
+    def group_set(n: ast.AST) -> ast.AST | None:
+        comp = n if isinstance(n, ast.SetComp) else None
+        a = simple_call(n, ("set", "frozenset"), 1)
+        if a is not None and isinstance(a[0], (ast.GeneratorExp, ast.ListComp, ast.SetComp)):
+            comp = a[0]
+        if comp is not None and isinstance(comp.elt, ast.Subscript) and u(comp.elt.value).endswith("._bat_bats_map") \
+                and len(comp.generators) == 1 and not comp.generators[0].ifs:
+            return comp
+        return None
+
+    sets = [(n, group_set(n)) for m in calc.methods.values() for n in ast.walk(m.node) if group_set(n) is not None]
+    sets = [(n, c) for n, c in sets if not any(c2 is c and n2 is not n for n2, c2 in sets if n is c)]  # set({…}): the outer one
     if len(sets) == 1:
-        g = sets[0].generators[0]
-        add(CONTROLS[4][0], MC, [(sets[0], f"[{seg(msrc, sets[0].elt)} for {seg(msrc, g.target)} in "
-                                           f"sorted({seg(msrc, g.iter)})]")])
+        n, comp = sets[0]
+        g = comp.generators[0]  # type: ignore[union-attr]
+        add(CONTROLS[4][0], MC, [(n, f"[{seg(msrc, comp.elt)} for {seg(msrc, g.target)} in "  # type: ignore[union-attr]
+                                     f"sorted({seg(msrc, g.iter)})]")])
     # 6. non-adjustable requests: the inclusion upper bound itself is refused
-    rng = chains(f"{BMM}:BatteryManager", {"exclusion_upper", "inclusion_upper"}, strict=False)
+    rng = sites(f"{BMM}:BatteryManager", "inclusion_upper", strict=False)
     if len(rng) == 1:
-        c = rng[0]
+        c, kk, _x = rng[0]
         operands = [c.left] + list(c.comparators)
         parts = [seg(bsrc, operands[0])]
         for k, op in enumerate(c.ops):
-            sym = _CMP[type(op)]
-            if any(isinstance(x, ast.Attribute) and x.attr == "inclusion_upper" for x in operands[k:k + 2]):
-                sym = sym[0]
-            parts += [sym, seg(bsrc, operands[k + 1])]
+            sym = {**_CMP, ast.Eq: "==", ast.NotEq: "!=", ast.Is: "is", ast.IsNot: "is not", ast.In: "in",
+                   ast.NotIn: "not in"}[type(op)]
+            parts += [sym[0] if k == kk else sym, seg(bsrc, operands[k + 1])]
         add(CONTROLS[5][0], BMM, [(c, " ".join(parts))])
     return [(nm, module, *built.get(nm, (old, new)), rule) for nm, module, old, new, rule in CONTROLS]
 
@@ -635,8 +691,8 @@ def run_rules(run: Run, prog: Program) -> None:
 
 def check(run: Run, prog: Program, tier: str) -> str:
     run.rule("C17.AGG", "advertised vs enforced aggregation terms: inclusion identical; exclusion related by the "
-             "Σmax>=maxΣ lemmas; same battery aggregation; every group once with all its members; "
-             "positional metric tables agree")
+             "Σmax>=maxΣ lemmas; same battery aggregation; every group once with all its members (left out only "
+             "when it has no data); positional metric tables agree")
     run.rule("C17.ACC", "for every ordering: P != 0 inside the advertised bounds => _check_request admits it")
     run_rules(run, prog)
     run.floor("C17.AGG", 14)
